@@ -84,13 +84,12 @@ SPECS["C24"] = {
 }
 
 SPECS["C08"] = {
-    "parts": [{"engine": "kani", "group": "enc", "select": r"^c08_", "mem_gb": 8, "timeout": {"quick": 1200, "thorough": 2400},
-               "thorough_only": r"locked_state", "per_harness": {r"locked_state": {"mem_gb": 30, "timeout": 2400}}}],
+    "parts": [{"engine": "kani", "group": "enc", "select": r"^c08_", "mem_gb": 8, "timeout": {"quick": 1200, "thorough": 2400}}],
     "functions": ["dicom_encoding::decode::adaptive_le::AdaptiveVRLittleEndianDecoder::<D>::decode_header (all three states), vr_compatible_with_virtual, resolve_vr",
                   "compared with ExplicitVRLittleEndianDecoder::decode_header / ImplicitVRLittleEndianDecoder::<D>::decode_header"],
-    "bounds": "the deciding header: 24/16 arbitrary bytes with a solver-chosen dictionary answer; each locked state: reached through one concrete first element, then 12/8 arbitrary bytes with a solver-chosen dictionary answer "
+    "bounds": "the deciding (first non-delimiter) header: 24/16 arbitrary bytes with a solver-chosen dictionary answer (absent / Exact(any of 34 VRs) / Xs / Ox / Px / Lt); a leading item delimiter followed by the deciding header "
               "chosen by the solver (absent / Exact(any of 34 VRs) / Xs / Ox / Px / Lt); also a leading item delimiter before the deciding element",
-    "outside": "DataSetReader::new_with_ts_cs_options(flexible_decoding) wiring (it hard-wires the standard dictionary); value reading between headers (the decoders do not look at values)",
+    "outside": "headers AFTER the deciding one (locked states: two decodes through the state machine exceed 30 GB / 23 min in CBMC); DataSetReader::new_with_ts_cs_options(flexible_decoding) wiring (it hard-wires the standard dictionary); value reading between headers (the decoders do not look at values)",
     "assumptions": ["instantiation D = harness stub dictionary", "ambiguity condition as in the statement: length bytes spelling a VR that the dictionary does not contradict are excluded on the implicit side"],
 }
 
@@ -110,4 +109,23 @@ SPECS["C26"] = {
               "then finish; payload bytes and presentation context id symbolic; working transport",
     "outside": "more than two writes before finish (each write starts from a buffer fill level that one of the instances reaches); large maximum lengths; the asynchronous writer and the reader (not yet built)",
     "assumptions": ["hook: cfg(kani) public constructor (repo commit 655337a)", "oracle: PS3.8 9.3.5 reading of the emitted bytes in kani/ul/src/c26.rs"],
+}
+
+SPECS["C25"] = {
+    "parts": [{"engine": "kani", "group": "ul", "select": r"^c25_", "mem_gb": 12, "timeout": {"quick": 1500, "thorough": 2400}}],
+    "functions": ["dicom_ul::pdu::writer::write_pdu (+ write_chunk_u32)", "dicom_ul::pdu::reader::read_pdu"],
+    "bounds": "A-RELEASE-RQ/RP, A-ABORT (all sources/reasons symbolic), A-ASSOCIATE-RJ, P-DATA-TF with one PDV of 2 symbolic bytes (context id, type, last flag symbolic), unknown PDU type; "
+              "strict prefixes of concrete length per instance; strict mode on an arbitrary 6-byte header with symbolic maximum length",
+    "outside": "A-ASSOCIATE-RQ/AC with their variable items (string building in CBMC: not yet built), items longer than 65535 bytes (length arithmetic planned on Engine M), more than one PDV",
+    "assumptions": ["tracing macros stubbed to disabled", "oracle: PS3.8 9.3 framing checked on the written bytes in kani/ul/src/c25.rs"],
+}
+
+SPECS["C18"] = {
+    "parts": [{"engine": "kani", "group": "enc", "select": r"^c18_", "mem_gb": 8, "timeout": {"quick": 1200, "thorough": 2400}},
+              {"engine": "m", "module": "c18"}],
+    "functions": ["dicom_encoding::adapters::PixelDataWriter::encode (default method)", "dicom_core::value::fragments::Fragments::new"],
+    "bounds": "default encode: 1-3 frames with solver-chosen frame sizes 0-6 (a harness encode_frame emits that many bytes); Fragments::new: (data length, fragment size) "
+              "instances (3,0) (4,0) (5,2) (6,4) (5,3) (1,6) (0,0) (0,2) with symbolic bytes",
+    "outside": "frame_pixel_data on objects, From<Vec<Fragments>>, the fragment-count arithmetic at full width (f32), Encapsulated Pixel Data Value Total Length in transcode.rs (global registry + file object)",
+    "assumptions": ["a fragment occupies 8 header bytes plus its data padded to even length when written (PS3.5 A.4)"],
 }
